@@ -1,26 +1,23 @@
 // C15: token sets equal their fixpoint definitions.
 //
-// E: (A) every reduced grammar of a tiny gramenum scope x input configurations (first input eoi,
+// Enumerated, phase A: every reduced grammar of a tiny gramenum scope x input configurations (first
+// input eoi, a second input, the eoi input listed second, no eoi input at all, another eoi input
+// first) x {no error terminal, last terminal renamed to `error`} x every atom (t, first/last t,
+// follow t, precede t, X, first X, last X, follow X, precede X), its complement and a fixed family of
+// compounds built from the grammar's atoms; 20 `%generate` directives per grammar text, interleaved
+// with `%assert`. Phase B: hand-written showcase grammars x every set expression with at most two
+// literals (atom or ~atom), plain and complemented, and every expression with three literals over a
+// reduced literal alphabet. Phase C: systems of up to three `%generate` sets that refer to each other
+// and to themselves. Phase D: set(...) used inside a rule (its value is read from the rules of the
+// synthesized setof_ nonterminal), including sets that depend on the nonterminal they are used in.
 //
-//	    optional second input, input order swapped, no eoi input at all) x {no error terminal, last
-//	    terminal renamed to `error`} x every atom {t, first/last t, follow t, precede t, X, first X,
-//	    last X, follow X, precede X}, its complement and a fixed family of compounds built from the
-//	    grammar's atoms (20 `%generate` directives per grammar text, interleaved with `%assert`);
-//	(B) hand-written showcase grammars x every set expression with <=2 atoms over all atoms (each
-//	    atom plain or complemented, whole expression plain or complemented) and every expression with
-//	    3 atoms over a reduced literal alphabet;
-//	(C) systems of <=3 `%generate` sets that refer to each other (and to themselves);
-//	(D) set(...) used inside a rule (its value is read from the rules of the synthesized setof_
-//	    nonterminal), including sets that depend on the nonterminal they are used in.
-//
-// O: textbook fixpoints written from the definitions over the rules reachable from the FIRST eoi
-//
-//	input (ref.go), union/intersection/complement on map[int]bool over the terminal universe;
-//	a complement that depends on itself => "set complement cannot transitively depend on itself";
-//	afterErr = follow(error), Parser.IsRecovering = afterErr non-empty.
+// Oracle (ref.go): textbook fixpoints written from the definitions over the rules reachable from the
+// FIRST eoi input, union/intersection/complement on map[int]bool over the terminal universe; a
+// complement that depends on itself must be rejected ("set complement cannot transitively depend on
+// itself"); afterErr = follow(error) and Parser.IsRecovering = afterErr non-empty.
 //
 // Observed at grammar.Grammar.Sets (named sets incl. afterErr), grammar.Parser.Rules (setof_
-// nonterminals), the error list of compiler.Compile.
+// nonterminals) and the error list of compiler.Compile.
 package main
 
 import (
@@ -295,6 +292,8 @@ func classify(e *sx) string {
 			has["intersection"] = true
 			if x.Sub[0].Op == "not" && x.Sub[1].Op == "not" {
 				has["intersection-of-complements"] = true
+			} else if x.Sub[0].Op == "not" || x.Sub[1].Op == "not" {
+				has["intersection-with-complement"] = true
 			}
 		case "name":
 			has["named"] = true
@@ -308,6 +307,9 @@ func classify(e *sx) string {
 	walk(e, false)
 	if has["intersection-of-complements"] {
 		return "intersection-of-complements"
+	}
+	if has["intersection-with-complement"] {
+		return "intersection-with-complement"
 	}
 	var ks []string
 	for k := range has {
@@ -326,22 +328,25 @@ type verdict struct {
 
 // bareAliasProblem reports a `%generate A = set(B);` whose right-hand side is just the name of a set
 // declared at the same or a later position (see the finding in the final report).
-func bareAliasProblem(s *spec) bool {
+func bareAliasProblem(s *spec) string {
 	pos := map[string]int{}
 	for i, d := range s.Sets {
 		if d.Name != "" {
 			pos[d.Name] = i
 		}
 	}
+	kind := ""
 	for i, d := range s.Sets {
 		e := d.Expr
 		if e.Op == "name" {
-			if j, ok := pos[e.Sym]; ok && j >= i {
-				return true
+			if j, ok := pos[e.Sym]; ok && j > i {
+				return "later"
+			} else if ok && j == i {
+				kind = "itself"
 			}
 		}
 	}
-	return false
+	return kind
 }
 
 func check(s *spec) (v verdict) {
@@ -364,11 +369,14 @@ func check(s *spec) (v verdict) {
 		if v.key != "" {
 			return
 		}
-		if bareAliasProblem(s) {
+		if k := bareAliasProblem(s); k != "" {
 			// One root cause (compiler/syntax.go collectDirectives copies the still empty
 			// placeholder of the referenced set); everything downstream of it is reported under
-			// a single key.
-			site, class = "generate", "bare-alias-of-later-or-same-set"
+			// these two keys.
+			site, class = "generate", "bare-alias:of-a-later-set"
+			if k == "itself" {
+				class = "bare-alias:of-itself"
+			}
 		}
 		v.key = site + ":" + class
 		v.what = fmt.Sprintf(format, args...) + "\n--- grammar ---\n" + text
@@ -673,19 +681,21 @@ func run(c *core.Ctx) {
 	c.Rule("phase A: every reduced gramenum grammar of the scope x 5 input configurations x {plain, last terminal = error} with every atom, its complement " +
 		"and 2 compounds per atom; phase B: 3 showcase grammars x all expressions with <=2 literals (atom or ~atom) x {plain, complemented} and all " +
 		"3-literal expressions over 8 literals; phase C: systems of 1..3 named sets whose definitions range over 20..40 templates mentioning each other; " +
-		"phase D: set(expr) inside a rule for every literal, also self-dependent. 20 %generate per text. nontrivial = distinct (expression, value) pairs " +
-		"whose value is neither empty nor the whole terminal universe")
+		"phase D: set(expr) inside a rule for every literal, also self-dependent. 20 %generate per text. nontrivial = named-set evaluations (one expression on one grammar text, " +
+		"all distinct) whose value is neither empty nor the whole terminal universe")
 	c.Assume("the complement universe is every terminal of the grammar: eoi, invalid_token, error and all lexer tokens (sides with syntax/set.go; no documentation)")
 	c.Assume("follow/precede never contain eoi; `any` of a nonterminal = terminals occurring in the rules reachable from it; an empty set(...) inside a rule derives the empty string (sides with the implementation)")
 	c.Assume("%assert directives are parsed and resolved but never enforced by the compiler (compiler/syntax.go collects them, nothing reads them): only their non-interference is checked")
 
 	var mu sync.Mutex
 	distinct := map[string]bool{}
-	var nTexts, nCycle, nConfl int64
+	var nTexts, nCycle, nConfl, nNontriv int64
 	runSpecs := func(specs []*spec) {
+		vs := make([]verdict, len(specs))
 		core.ParallelFor(len(specs), 16, func(i int) {
 			s := specs[i]
 			v := check(s)
+			vs[i] = v
 			c.Eval(1)
 			mu.Lock()
 			nTexts++
@@ -697,76 +707,82 @@ func run(c *core.Ctx) {
 			}
 			for _, d := range v.nonEmpty {
 				distinct[d] = true
+				nNontriv++
 			}
 			mu.Unlock()
-			if v.key != "" {
-				c.Violate(v.key, v.what, s)
-			}
 		})
+		for i, v := range vs { // in enumeration order
+			if v.key != "" {
+				c.Violate(v.key, v.what, specs[i])
+			}
+		}
 	}
 
 	// ---- phase A
 	scopes := []gramenum.Scope{
 		{N: 1, T: 2, R: 3, K: 2, Reduced: true},
 		{N: 2, T: 2, R: 3, K: 2, Reduced: true},
+		{N: 3, T: 2, R: 3, K: 2, Reduced: true},
+		{N: 2, T: 3, R: 3, K: 2, Reduced: true},
 	}
-	if !c.Quick() {
-		scopes = append(scopes,
-			gramenum.Scope{N: 2, T: 3, R: 3, K: 2, Reduced: true},
-			gramenum.Scope{N: 2, T: 2, R: 4, K: 2, Reduced: true},
-			gramenum.Scope{N: 3, T: 2, R: 3, K: 2, Reduced: true})
+	// thorough only, after the other phases: they may use up the budget
+	lateScopes := []gramenum.Scope{
+		{N: 2, T: 2, R: 4, K: 2, MinR: 4, Reduced: true},
+		{N: 2, T: 2, R: 3, K: 3, Reduced: true},
 	}
 	nGrams := int64(0)
-	for _, sc := range scopes {
-		var pending []*spec
-		flush := func() {
-			runSpecs(pending)
-			pending = pending[:0]
-		}
-		capped := false
-		gramenum.Enumerate(sc, func(idx int, g *gramenum.Gram) bool {
-			if c.Expired() {
-				capped = true
-				return false
+	phaseA := func(scopes []gramenum.Scope) {
+		for _, sc := range scopes {
+			var pending []*spec
+			flush := func() {
+				runSpecs(pending)
+				pending = pending[:0]
 			}
-			nGrams++
-			x1 := g.T + 1
-			cfgs := [][]gramenum.Input{{{NT: x1, Eoi: true}}, {{NT: x1, Eoi: false}}, {{NT: x1, Eoi: false}, {NT: x1, Eoi: true}}}
-			if g.N >= 2 {
-				x2 := g.T + 2
-				cfgs = append(cfgs,
-					[]gramenum.Input{{NT: x2, Eoi: false}, {NT: x1, Eoi: true}},
-					[]gramenum.Input{{NT: x2, Eoi: true}, {NT: x1, Eoi: true}}) // rules reachable from X2 only
-			}
-			for ci, cfg := range cfgs {
-				for _, withErr := range []bool{false, true} {
-					if withErr && g.T < 2 {
-						continue
-					}
-					base := gramSpec(g, cfg, withErr)
-					at := atomsOf(base)
-					exprs := append([]*sx{}, at...)
-					for _, a := range at {
-						exprs = append(exprs, not(a))
-					}
-					if ci == 0 || ci == 4 {
-						exprs = append(exprs, compoundsOf(at)...)
-					}
-					pending = append(pending, withSets(base, exprs, "A")...)
+			capped := false
+			gramenum.Enumerate(sc, func(idx int, g *gramenum.Gram) bool {
+				if c.Expired() {
+					capped = true
+					return false
 				}
+				nGrams++
+				x1 := g.T + 1
+				cfgs := [][]gramenum.Input{{{NT: x1, Eoi: true}}, {{NT: x1, Eoi: false}}, {{NT: x1, Eoi: false}, {NT: x1, Eoi: true}}}
+				if g.N >= 2 {
+					x2 := g.T + 2
+					cfgs = append(cfgs,
+						[]gramenum.Input{{NT: x2, Eoi: false}, {NT: x1, Eoi: true}},
+						[]gramenum.Input{{NT: x2, Eoi: true}, {NT: x1, Eoi: true}}) // rules reachable from X2 only
+				}
+				for ci, cfg := range cfgs {
+					for _, withErr := range []bool{false, true} {
+						if withErr && g.T < 2 {
+							continue
+						}
+						base := gramSpec(g, cfg, withErr)
+						at := atomsOf(base)
+						exprs := append([]*sx{}, at...)
+						for _, a := range at {
+							exprs = append(exprs, not(a))
+						}
+						if ci == 0 || ci == 4 {
+							exprs = append(exprs, compoundsOf(at)...)
+						}
+						pending = append(pending, withSets(base, exprs, "A")...)
+					}
+				}
+				if len(pending) >= 2000 {
+					flush()
+				}
+				return c.ViolationCount() < 20
+			})
+			flush()
+			if capped {
+				c.Capped(fmt.Sprintf("phase A scope %+v cut short (budget)", sc))
+				break
 			}
-			if len(pending) >= 2000 {
-				flush()
-			}
-			return c.ViolationCount() < 20
-		})
-		flush()
-		if capped {
-			c.Capped(fmt.Sprintf("phase A scope %+v cut short (budget)", sc))
-			break
 		}
 	}
-	c.Set("phaseA_grammars", nGrams)
+	phaseA(scopes)
 	c.Outcome("phaseA-texts", nTexts)
 
 	// ---- phase B
@@ -940,7 +956,15 @@ func run(c *core.Ctx) {
 	}
 	c.Outcome("phaseD-texts", nTexts-before)
 
-	c.Nontrivial(int64(len(distinct)))
+	if !c.Quick() {
+		before = nTexts
+		phaseA(lateScopes)
+		c.Outcome("phaseA-late-texts", nTexts-before)
+	}
+	c.Set("phaseA_grammars", nGrams)
+
+	c.Nontrivial(nNontriv)
+	c.Set("distinct_expression_value_pairs", len(distinct))
 	c.Set("grammar_texts", nTexts)
 	c.Set("texts_rejected_for_complement_cycle_as_expected", nCycle)
 	c.Set("texts_with_lalr_conflicts_still_checked", nConfl)
